@@ -320,6 +320,13 @@ def setup(repo):
     open(probe, 'w').write('use vstd::prelude::*;\nverus!{ proof fn t() ensures 1 + 1 == 2int {} }\nfn main(){}\n')
     rc, out, _ = sh(['verus', probe], cwd=CACHE, timeout=300)
     print('verus warm-up rc', rc)
+    # differential test of the executable indexmap model against the real crate (an assumed dependency contract, cross-checked)
+    rc, out, wall = sh(['cargo', 'test', '--offline', '--manifest-path', os.path.join(HERE, 'models', 'difftest', 'Cargo.toml'),
+                        '--target-dir', os.path.join(CACHE, 'difftest-target'), '--', '--nocapture'], timeout=1800)
+    m = re.search(r'indexmap_model difftest: (\d+) operations compared', out)
+    print('setup: indexmap_model difftest rc', rc, (m.group(0) if m else out[-1500:]))
+    open(os.path.join(CACHE, 'difftest.txt'), 'w').write((m.group(0) if m else 'FAILED') + '\n')
+    ok_diff = rc == 0 and m is not None
     import props as P
     seen = set()
     scratch = os.path.join(os.environ.get('VERIF_SCRATCH', '/var/tmp/aquatic-verif'), 'setup', 'repo')
@@ -345,4 +352,4 @@ def setup(repo):
             ok = False
     shutil.rmtree(os.path.dirname(scratch), ignore_errors=True)
     print(f'setup done in {time.time()-t0:.0f}s')
-    return 0 if ok else 1
+    return 0 if (ok and ok_diff) else 1
